@@ -861,7 +861,7 @@ def targets(tier):
             "conversion",
             check_conversion,
             strategy=lambda tier: conversion_cases(),
-            budget={"quick": 4800, "thorough": 160000},
+            budget={"quick": 4800, "thorough": 100000},
             required=[
                 "nt:empty",
                 "nt:leading-zero-byte",
